@@ -81,7 +81,7 @@ package martian
 //@ func (*proxyConn).readRequest
 //@ property C15 C13
 //@ ghostset readOK() := (result1 == nil)
-//@ requires p != nil && p.Proxy != nil && p.conn != nil && p.brw != nil && p.brw.Reader != nil
+//@ requires p != nil && p.Proxy != nil && p.conn != nil && p.brw != nil && p.brw.Reader != nil && lockDepth() == 0
 //@ modifies *, readOK(), rdN(p.conn), rdAt
 //@ preserves proxyConn.* Proxy.* bufio.ReadWriter.*
 //@ ensures result1 == nil ==> result0 != nil && result0.Body != nil && result0.URL != nil && result0.Header != nil
@@ -376,7 +376,7 @@ package martian
 //@ func (*proxyConn).handleMITM
 //@ property C13 C04 C07 C15
 //@ ghostset nMITM() := old(nMITM()) + 1
-//@ requires p != nil && p.Proxy != nil && p.conn != nil && p.brw != nil && p.brw.Writer != nil && p.brw.Reader != nil && p.MITMConfig != nil && req != nil && req.Method == "CONNECT" && req.URL != nil
+//@ requires p != nil && p.Proxy != nil && p.conn != nil && p.brw != nil && p.brw.Writer != nil && p.brw.Reader != nil && p.MITMConfig != nil && req != nil && req.Method == "CONNECT" && req.URL != nil && lockDepth() == 0
 //@ modifies *, nWrote(), wroteStatus(), sawClosing(), wrotePA(), wErr(), nMITM(), hsBudget
 //@ preserves Proxy.* http.Request.Method proxyConn.Proxy proxyConn.brw bufio.ReadWriter.*
 //@ ensures p.conn != nil
@@ -392,7 +392,7 @@ package martian
 // refused by a modifier or tunnelled)
 //@ func (*proxyConn).handleConnectRequest
 //@ property C13 C04 C07
-//@ requires p != nil && p.Proxy != nil && p.conn != nil && p.brw != nil && p.brw.Writer != nil && p.brw.Reader != nil && req != nil && req.Method == "CONNECT" && req.URL != nil && req.Header != nil
+//@ requires p != nil && p.Proxy != nil && p.conn != nil && p.brw != nil && p.brw.Writer != nil && p.brw.Reader != nil && req != nil && req.Method == "CONNECT" && req.URL != nil && req.Header != nil && lockDepth() == 0
 //@ modifies *, nWrote(), wroteStatus(), sawClosing(), modReqFailed(), upstream(), wrotePA(), wErr(), nMITM()
 //@ preserves Proxy.* proxyConn.Proxy proxyConn.brw bufio.ReadWriter.*
 //@ ensures p.conn != nil
@@ -407,7 +407,7 @@ package martian
 // causes no upstream activity; a request read while shutting down is not forwarded.
 //@ func (*proxyConn).handle
 //@ property C13 C04 C11
-//@ requires p != nil && p.Proxy != nil && p.conn != nil && p.brw != nil && p.brw.Writer != nil && p.brw.Reader != nil
+//@ requires p != nil && p.Proxy != nil && p.conn != nil && p.brw != nil && p.brw.Writer != nil && p.brw.Reader != nil && lockDepth() == 0
 //@ modifies *, nRead(), nWrote(), wroteStatus(), sawClosing(), modReqFailed(), upstream(), readOK(), wrotePA(), wErr(), nMITM()
 //@ preserves Proxy.* proxyConn.Proxy proxyConn.brw bufio.ReadWriter.*
 //@ ensures p.conn != nil
@@ -560,7 +560,7 @@ package martian
 // was; once shutdown has begun no request is read from the connection.
 //@ func (*Proxy).handleLoop
 //@ property C11 C13
-//@ requires p != nil && conn != nil && p.conns != nil
+//@ requires p != nil && conn != nil && p.conns != nil && lockDepth() == 0
 //@ modifies *, nConnClose(conn), a32(p.connsWg), nRead(), nWrote(), wroteStatus(), sawClosing(), modReqFailed(), upstream(), readOK(), wrotePA(), wErr(), nMITM()
 //@ ensures nConnClose(conn) == old(nConnClose(conn)) + 1
 //@ ensures a32(p.connsWg) == old(a32(p.connsWg))
@@ -568,7 +568,7 @@ package martian
 //@ loop 0:
 //@   invariant p != nil && pc != nil && pc.Proxy == p && pc.conn != nil && pc.brw != nil && pc.brw.Writer != nil && pc.brw.Reader != nil
 //@   invariant p.conns == old(p.conns) && p.conns != nil
-//@   invariant nConnClose(conn) == old(nConnClose(conn)) && a32(p.connsWg) == old(a32(p.connsWg)) + 1
+//@   invariant nConnClose(conn) == old(nConnClose(conn)) && a32(p.connsWg) == old(a32(p.connsWg)) + 1 && lockDepth() == 0
 
 // (the deferred registry clean-up of handleLoop)
 //@ func (*Proxy).handleLoop$1
@@ -611,11 +611,11 @@ package martian
 //@ pure
 //@ func (*Proxy).Serve
 //@ property C15 C11
-//@ requires p != nil && l != nil
+//@ requires p != nil && l != nil && lockDepth() == 0
 //@ modifies **
 //@ ensures connUse() == old(connUse())
 //@ loop 0:
-//@   invariant connUse() == old(connUse()) && p != nil && l != nil && p.conns != nil
+//@   invariant connUse() == old(connUse()) && p != nil && l != nil && p.conns != nil && lockDepth() == 0
 
 // Close (C11): every connection in the registry is closed - whether or not a
 // Shutdown has been attempted before (the closing flag is raised once, the
